@@ -21,7 +21,8 @@ RULE = ("Hypothesis draws series (10 classes incl. constant / few values, n 3..9
         "Pearson model to 1e-6; |r| <= 1+1e-9; 0 when no valid pair or no variance; r(a*x+b) == r(x) to 1e-6; integer/nodata "
         "== float/NaN encodings to 1e-9; autocorr (y,x,t) == autocorr_tyx == accessor in both layouts == float32 of the 1-d "
         "value. Non-trivial: at least one missing cell and >= 1 valid pair and non-zero variance; distinct by content hash. "
-        " Added after the fourth seeded round: Sub-check 'history': one array object queried repeatedly while its nodata attribute and cells are edited in place and other same-shaped cubes / equal dask blocks are processed; earlier results are re-compared at the end.")
+        " Added after the fourth seeded round: Sub-check 'history': one array object queried repeatedly while its nodata attribute and cells are edited in place and other same-shaped cubes / equal dask blocks are processed; earlier results are re-compared at the end. "
+        " Added after the sixth seeded round: series class 'narrow band on a high level' (a few counts of variation at |level| 12000..32000) and pure level shifts of 15000..30000 in the affine relation.")
 ASSUME = ["numpy float64 arithmetic for the reference model"]
 
 ac1d = ops.autocorr_1d
@@ -219,6 +220,12 @@ def case1(draw, nmax, vmax=10000, encs=("int16", "float32", "float64")):
         q = [base + v for v in draw(st.lists(st.integers(-nz, nz), min_size=len(s["y"]), max_size=len(s["y"])))]
         q[0 if draw(st.booleans()) else -1] = max(-vmax, min(vmax, base + draw(st.sampled_from([-1, 1])) * draw(st.integers(vmax // 4, vmax // 2))))
         s = {"cls": "quiet_with_end_outlier", "y": q}
+    highlevel = vmax >= 10000 and draw(st.integers(0, 9)) == 0
+    if highlevel:
+        # a few counts of variation on a level near the top / bottom of int16 (spread / level ~ 1e-4): still an ordinary integer series
+        band = draw(st.integers(1, 4))
+        level = draw(st.sampled_from([-1, 1])) * draw(st.integers(12000, 32000))
+        s = {"cls": "narrow_band_on_high_level", "y": [level + v for v in draw(st.lists(st.integers(0, band), min_size=len(s["y"]), max_size=len(s["y"])))]}
     n = len(s["y"])
     g = draw(acgap(n))
     enc = draw(st.sampled_from(encs))
@@ -229,7 +236,7 @@ def case1(draw, nmax, vmax=10000, encs=("int16", "float32", "float64")):
         off = draw(st.sampled_from([0.0, 0.25 * sc, 100.0 * sc / 3]))
         x = [v * sc + off for v in x]
         integral = False
-    return {"x": x, "valid": g["valid"], "enc": enc, "nodata": -32768 if draw(st.booleans()) else -9999 - vmax,
+    return {"x": x, "valid": g["valid"], "enc": enc, "nodata": -32768 if (draw(st.booleans()) or highlevel) else -9999 - vmax,
             "ycls": s["cls"], "gcls": g["gcls"], "integral": integral}
 
 
@@ -255,6 +262,13 @@ def run(ctx):
         c = draw(case1(ctx.n(200, 900), vmax=1000, encs=("int16",)))
         c["a"] = draw(st.integers(1, 30))
         c["b"] = draw(st.integers(-2000, 2000))
+        if draw(st.integers(0, 3)) == 0:
+            # a pure level shift towards the end of the int16 range (|x| <= 1000, so a*x+b stays inside), also of a low-amplitude series
+            c["a"] = draw(st.integers(1, 2))
+            c["b"] = draw(st.sampled_from([-1, 1])) * draw(st.integers(15000, 30000))
+            if draw(st.booleans()):
+                band = draw(st.integers(2, 5))
+                c["x"] = [int(v) % band for v in c["x"]]
         c["nodata"] = -32768
         return c
 
